@@ -55,6 +55,11 @@ def _simple(e):
         return True
     if k == "field":
         return _simple(e["e"])
+    if k == "call" and len(e.get("a", [])) == 1:
+        f = _peel(e.get("fn"))
+        if isinstance(f, dict) and f.get("k") == "fn" and str(f.get("def", "")).endswith(("Deref::deref", "DerefMut::deref_mut")):
+            return _simple(e["a"][0])      # auto-deref of a plain place (`&vec` passed as `&[T]`)
+        return False
     if k == "adt":
         return all(_simple(x) for _, x in e.get("f", [])) and not e.get("base")
     if k == "tuple":
